@@ -185,3 +185,47 @@ def _consider_shortcircuit(fn, sig, bound, subconditions, allow_interpretation):
 
 
 _core.consider_shortcircuit = _consider_shortcircuit
+
+
+# --- 7. dict order.  CrossHair's dict stand-in (ShellMutableMap) iterates "untouched keys of the
+# original mapping, then every mutated key": assigning to an *existing* key moved it to the end,
+# which a real dict never does.  A sensitivity twin that depended on mapping order was wrongly
+# confirmed (found with C15's reversed install-directory mapping).  Keys keep their place unless
+# they were deleted at some point; comparisons stay list based (no hashing of symbolic keys).
+from crosshair import simplestructs as _sstructs
+
+_SMM = _sstructs.ShellMutableMap
+_DELETED = _sstructs._DELETED
+_orig_smm_delitem = _SMM.__delitem__
+
+
+def _smm_iter(self):
+    mutations = self._mutations
+    dead = self.__dict__.get('_vpx_dead', [])
+    placed = []
+    mkeys = list(mutations.keys())
+    for k in self._inner:
+        if k in dead:
+            continue
+        if k in mkeys and mutations[k] is _DELETED:
+            continue
+        placed.append(k)
+        yield k
+    for k, v in mutations.items():
+        if v is _DELETED or k in placed:
+            continue
+        yield k
+
+
+def _smm_reversed(self):
+    return iter(list(reversed(list(_smm_iter(self)))))
+
+
+def _smm_delitem(self, key):
+    _orig_smm_delitem(self, key)
+    self.__dict__.setdefault('_vpx_dead', []).append(key)
+
+
+_SMM.__iter__ = _smm_iter
+_SMM._reversed = _smm_reversed
+_SMM.__delitem__ = _smm_delitem
